@@ -22,7 +22,7 @@ MANIFEST = {
              'raw word within 2 of a codeword is read as that codeword and any word >= 3 from all is rejected, for ALL raw words at once via a generic lemma on first-minimum scans over '
              'a code of minimum distance >= 5; the two-copy fallback logic. Props/C11Positions.lean: the raw words those scans work on are read, bit by bit, from the modules the declarative symbols assign to the format bits (QR both copies, Micro QR, rMQR both copies), for every regular bitmap. Placement and the bitmap-level two-copy behaviour are additionally tied by exhaustive differential runs against a python '
              'reference (all words x all weight<=2 patterns x other-copy variants).'),
-    'note': 'Trusted: Lean kernel; verifdump; python BCH/module-position reference; the model's reading positions are proved to be the standard's; the model itself is tied to the Go code by correspondence.',
+    'note': 'Trusted: Lean kernel; verifdump; python BCH/module-position reference; the reading positions of the model are proved to be those of the standard; the model itself is tied to the Go code by correspondence.',
 }
 
 
